@@ -26,7 +26,7 @@ import sympy as sp
 from . import AnalysisError
 from .source import SourceModel
 from .symval import (SymObj, ClassVal, PropertyVal, SuperVal, Closure, BoundMethod, ModuleVal, Builtin,
-                     Raised, Phi, Vec, SymRaise, exc_matches, to_expr, merge, _alg, _MISSING)
+                     Raised, Phi, Vec, SymRaise, exc_matches, to_expr, is_expr, merge, _alg, _MISSING)
 
 MAX_DEPTH = 60
 
@@ -89,6 +89,7 @@ class Exit(Exception):
 class Interp:
     def __init__(self, src: SourceModel, symbolic_constants=None, stubs=None, arrays=()):
         self.src = src
+        self.static_objs = {}          # objects that belong to a class, not to a state (enum members): survive every restore
         self.heap = {}                 # obj.id -> {attr: value}
         self.classes = {}              # qual -> ClassVal
         self.module_cache = {}         # (module, name) -> value
@@ -105,6 +106,17 @@ class Interp:
         from . import symlib
         self.lib = symlib
         self.builtins = symlib.make_builtins(self)
+
+    @property
+    def heap(self):
+        return self._heap
+
+    @heap.setter
+    def heap(self, h):
+        for k, v in self.static_objs.items():
+            if k not in h:
+                h[k] = dict(v)
+        self._heap = h
 
     # ------------------------------------------------------------------ objects
     def new_obj(self, name, cls=None, attrs=None, open_attrs=None, sym_kw=None):
@@ -127,6 +139,10 @@ class Interp:
                     c.bases.append(self.get_class(r[1]))
                 elif r and r[0] == "external" and r[1].split(".")[-1] == "NamedTuple":
                     c.ntuple = True
+                elif r and r[0] == "external" and r[1] in ("enum.Enum", "enum.IntEnum", "enum.StrEnum", "enum.Flag", "enum.IntFlag"):
+                    c.is_enum = r[1]
+                elif r and r[0] == "external" and r[1] in ("builtins.str", "builtins.int", "str", "int"):
+                    pass               # class K(str, Enum): the mixin type only affects comparisons with plain values
             elif isinstance(b, ast.Attribute):
                 try:
                     bv = self.eval(b, Frame(self, module, module))
@@ -136,6 +152,8 @@ class Interp:
                     c.bases.append(bv)
                 elif ast.unparse(b).split(".")[-1] == "NamedTuple":
                     c.ntuple = True
+                elif ast.unparse(b) in ("enum.Enum", "enum.IntEnum", "enum.StrEnum"):
+                    c.is_enum = ast.unparse(b)
         frame = Frame(self, module, qual, None, cls=c)
         if c.ntuple:
             fields, defaults = [], []
@@ -182,6 +200,8 @@ class Interp:
                 c.attrs[st.target.id] = v
             elif isinstance(st, ast.Expr):
                 continue
+        if getattr(c, "is_enum", None) or any(getattr(b, "is_enum", None) for b in c.bases):
+            self._enum_members(c, node)
         self._dataclass(c, node, module, frame)
         # other class decorators are functions handed the class (they may add methods to it), innermost first
         for d in reversed(node.decorator_list):
@@ -197,6 +217,69 @@ class Interp:
                 raise AnalysisError(f"class decorator @{ast.unparse(d)} on {c.qual} replaces the class")
         self._module_level_patches(c, module)
         return c
+
+    def _enum_members(self, c, node):
+        """class K(Enum): every plain name bound in the class body becomes a member object with .name and .value"""
+        if not getattr(c, "is_enum", None):
+            c.is_enum = next(b.is_enum for b in c.bases if getattr(b, "is_enum", None))
+        members = {}
+        auto_n = 0
+        names = []
+        for st in node.body:
+            if isinstance(st, ast.Assign):
+                names.extend(t.id for t in st.targets if isinstance(t, ast.Name))
+            elif isinstance(st, ast.AnnAssign) and st.value is not None and isinstance(st.target, ast.Name):
+                names.append(st.target.id)
+        for nm in names:
+            if nm.startswith("_") or nm not in c.attrs:
+                continue
+            v = c.attrs[nm]
+            if isinstance(v, (Closure, PropertyVal)) or (isinstance(v, tuple) and v and v[0] in ("static", "classmethod")):
+                continue
+            if isinstance(v, SymObj) and v.name == "enum.auto()":
+                auto_n += 1
+                v = sp.Integer(auto_n)
+            elif is_expr(v) and to_expr(v).is_Integer:
+                auto_n = int(to_expr(v))
+            alias = next((m for m in members.values() if self.lib._same(self.heap[m.id]["_value_"], v)), None) \
+                if not isinstance(v, SymObj) else None
+            if alias is not None:
+                c.attrs[nm] = alias
+                continue
+            m = self.new_obj(f"{c.name}.{nm}", c, {"_name_": nm, "_value_": v, "name": nm, "value": v}, open_attrs=set())
+            members[nm] = m
+            c.attrs[nm] = m
+            self.static_objs[m.id] = dict(self.heap[m.id])
+        c.enum_members = members
+
+    def _enum_lookup(self, cls, value):
+        members = getattr(cls, "enum_members", {})
+        if isinstance(value, SymObj) and value.cls is cls:
+            return value
+        out = _MISSING
+        pending = []
+        for m in members.values():
+            t = self.truth(self.lib.compare(self, ast.Eq(), self.heap[m.id]["_value_"], value))
+            if t is sp.true:
+                out = m
+                break
+            if t is not sp.false:
+                pending.append((t, m))
+        if out is _MISSING:
+            ms = cls.lookup("_missing_")
+            if ms is not _MISSING:
+                fn = ms[1] if isinstance(ms, tuple) else ms
+                r = self.call(fn, [cls, value], {})
+                if r is None:
+                    raise SymRaise("ValueError", f"{value!r} is not a valid {cls.name}")
+                out = r
+            elif not pending:
+                raise SymRaise("ValueError", f"{value!r} is not a valid {cls.name}")
+            else:
+                out = pending.pop()[1]
+        for t, m in reversed(pending):
+            out = merge(t, m, out)
+        return out
 
     def _dataclass(self, c, node, module, frame):
         """@dataclass: __init__/__eq__/__hash__/ordering synthesised from the annotated fields (as source text, so that the
@@ -332,8 +415,17 @@ class Interp:
                 raise AnalysisError(f"module-level code that extends class {c.qual} is not understood: {exc}")
 
     def instantiate(self, cls: ClassVal, args, kwargs, name=None, open_attrs=None, sym_kw=None):
+        if getattr(cls, "enum_members", None) is not None:
+            if len(args) != 1 or kwargs:
+                raise AnalysisError(f"functional Enum API on {cls.qual} is not modelled")
+            return self._enum_lookup(cls, args[0])
         if getattr(cls, "ntuple", None):
-            return cls.ntuple.make(list(args), dict(kwargs))
+            nw = cls.lookup("__new__")
+            if nw is not _MISSING and not getattr(self, "_in_nt_new", False):
+                raise AnalysisError(f"NamedTuple class {cls.qual} overrides __new__")
+            t = cls.ntuple.make(list(args), dict(kwargs))
+            t._cls = cls           # methods, properties and class attributes of a class-style NamedTuple
+            return t
         if open_attrs is None:
             # data attributes that table loaders fill in: readable as fresh symbols on any atom
             open_attrs = self.default_open.get(cls.qual, frozenset())
@@ -384,8 +476,26 @@ class Interp:
             raise SymRaise("AttributeError", f"{obj!r} has no attribute {name}")
         if isinstance(obj, ClassVal):
             v = obj.lookup(name)
+            if v is _MISSING and getattr(obj, "ntuple", None) and name in ("_fields", "_make", "_field_defaults"):
+                if name == "_fields":
+                    return obj.ntuple.fields
+                if name == "_field_defaults":
+                    nd = len(obj.ntuple.defaults)
+                    return dict(zip(obj.ntuple.fields[len(obj.ntuple.fields) - nd:], obj.ntuple.defaults)) if nd else {}
+                return Builtin("_make", lambda it: self.instantiate(obj, list(self.lib.iterate(self, it)), {}))
             if v is _MISSING and name in ("__name__", "__qualname__"):
                 return obj.name
+            if v is _MISSING and name == "__mro__":
+                order = []
+                def lin(k):
+                    order.append(k)
+                    for b in k.bases:
+                        lin(b)
+                lin(obj)
+                mro = [k for i, k in enumerate(order) if k not in order[i + 1:]]      # keep the last occurrence
+                if "object" not in self.builtins:
+                    self.builtins["object"] = Builtin("object", None)
+                return tuple(mro) + (self.builtins["object"],)
             if v is _MISSING and name == "__module__":
                 return "periodictable." + obj.module
             if v is _MISSING:
@@ -1467,7 +1577,11 @@ class Interp:
         self._comp(n, f, lambda fr: out.append(self.eval(n.elt, fr)))
         return out
 
-    e_GeneratorExp = e_ListComp
+    def e_GeneratorExp(self, n, f):
+        # a generator object (consumed once); its items are computed eagerly, which differs from Python only in the order
+        # of side effects of the element expression relative to the consumer
+        from .symval import GenVal
+        return GenVal(self.e_ListComp(n, f))
 
     def e_SetComp(self, n, f):
         out = []
